@@ -118,7 +118,7 @@ class Process(metaclass=abc.ABCMeta):
         'initial_state', 'generate_processes', 'generate_steps',
         'generate_topology', 'generate_flow', 'merge_overrides',
         'calculate_timestep', 'is_step', 'get_private_state',
-        'ports_schema', 'next_update', 'update_condition')
+        'ports_schema', 'next_update', 'update_condition', 'get_self')
     ATTRIBUTE_READ_COMMANDS = (
         'schema_override', 'parameters', 'condition_path', 'schema')
     ATTRIBUTE_WRITE_COMMANDS = ('set_schema',)
@@ -303,6 +303,14 @@ class Process(metaclass=abc.ABCMeta):
             returned for command ``command``.
         '''
         return getattr(self, command)(*args, **kwargs)
+
+    def get_self(self) -> 'Process':
+        '''Return this process.
+
+        As a command sent to a parallel process, this returns a copy
+        of the process that lives in the worker.
+        '''
+        return self
 
     def get_command_result(self) -> Any:
         '''Retrieve the result from the last-run command.
@@ -741,6 +749,19 @@ class ParallelProcess(Process):
         self._ended = False
         self._pending_command: Optional[
             Tuple[str, Optional[tuple], Optional[dict]]] = None
+
+    def __deepcopy__(self, memo: dict) -> 'ParallelProcess':
+        '''A copy (a division that copies the mother's processes) is a
+        parallel process of its own, running a copy of the process in a
+        worker of its own.'''
+        if self._pending_command:
+            # Wait for what is in flight. The result is kept, as in
+            # ``end()``, for a caller that still expects it.
+            self._command_result = self.get_command_result()
+        process = self.run_command('get_self')
+        new = ParallelProcess(process, self.profile, self._stats_objs)
+        memo[id(self)] = new
+        return new
 
     def send_command(
             self, command: str, args: Optional[tuple] = None,
